@@ -60,7 +60,7 @@ func init() {
 	muxStub := []string{"network: vsim/simnet in-memory connections with refuse / reset / close / partition switches", "peer: harness endpoint speaking real yamux, serving a tagged echo AdminService on every session"}
 	muxAssume := append(append([]string{}, commonAssume...), "yamux and gRPC run goroutines of their own that the simulator does not schedule (it owns the proxy's goroutines, the clock and the network); verdicts are taken at quiescent points on state that does not depend on their internal order")
 	addSpec(&propSpec{ID: "C10", Profiles: []string{"C10"}, Level: "fault_enumeration", Chunk: 1,
-		QuickRuns: 800, ThoroughRuns: 60000, QuickWall: 80 * time.Second, ThoroughWall: 25 * time.Minute,
+		QuickRuns: 3000, ThoroughRuns: 60000, QuickWall: 80 * time.Second, ThoroughWall: 25 * time.Minute,
 		Rule: "one evaluation = one seeded simulated MUX run: establisher or receiver role, pool size 1..4, 0..5 faults (dial refused, connection closed before/after yamux setup, black-holed connection, reset, partition, remote and local session close) and optionally lifetime cancellation at an arbitrary decision; then faults stop, the pool must refill within 3 virtual minutes, then shutdown. distinct = distinct trace fingerprint; non-trivial = a session was established and a fault (or the shutdown) fired",
 		Real: muxReal, Stub: muxStub, Assume: muxAssume})
 	addSpec(&propSpec{ID: "C11", Profiles: []string{"C11", "C11race"}, Level: "exploration", Chunk: 1,
